@@ -100,7 +100,7 @@ struct ApiRun {
     void op_prune(const Op &o); void op_get_value(const Op &o); void op_set_value(const Op &o); void op_remove_item(const Op &o);
     void op_loop_destroy(const Op &o); void op_loop_cat(const Op &o); void op_loop_names(const Op &o); void op_loop_set_cat(const Op &o);
     void op_loop_add_item(const Op &o); void op_loop_add_packet(const Op &o);
-    void op_iter_open(const Op &o); void op_iter_next(const Op &o); void op_iter_update(const Op &o); void op_iter_remove(const Op &o); void op_iter_end(const Op &o, bool abort);
+    void op_iter_open(const Op &o); void op_iter_next(const Op &o); void op_iter_update(const Op &o); void op_iter_remove(const Op &o); void op_iter_end(const Op &o, bool abort, bool after_fault = false);
     void op_handle_free(const Op &o); void op_walk(const Op &o); void op_checkpoint(const Op &o); void op_plant_fail(const Op &o); void op_packet_new(const Op &o);
     void op_parse_into(const Op &o);
     // helpers
@@ -145,7 +145,8 @@ template <class F> int ApiRun::api(const char *fn, F f, int flags) {
             long k = 1 + (long) skip.below(12);
             A.arm(k); int rc = f(); bool fired = A.fired; A.disarm();
             env_check(fn, loc0, rnd0);
-            if (fired) { ++enum_steps; enum_check_failed_attempt(fn, rc, k, sq, false); iter_fault_hit = true; }
+            if (fired && (rc == CIF_MEMORY_ERROR || rc == CIF_ERROR)) { ++enum_steps; enum_check_failed_attempt(fn, rc, k, sq, false); iter_fault_hit = true; }
+            else if (fired) { g_stats.inc(sq ? "fault.alloc_sqlite.absorbed" : "fault.alloc_libcif.absorbed"); ev("%s: %s allocation failure #%ld absorbed -> %s", fn, sq ? "storage-engine" : "library", k, rc_name(rc)); }
             return rc;
         }
         // A failed allocation may be absorbed: SQLite recovers from some of its own (cache growth, hash resizing,
